@@ -1,7 +1,7 @@
 /-
 Text codecs (M4).  Strings are UTF-8 byte strings (`Str`).  Archive logic is parametric in a
 `Codec`; theorems assume `Codec.Faithful` on the property's domain.  `sjisSub` is an executable
-sub-codec of Shift-JIS (ASCII, half-width katakana, hiragana, full-width katakana) used by the
+sub-codec of Shift-JIS (ASCII, half-width katakana, hiragana, full-width katakana, Greek, Cyrillic) used by the
 driver; the harness validates it against `encoding_rs` exhaustively and only generates strings
 inside it.
 -/
@@ -28,6 +28,13 @@ def utf8Decode : Bytes → Option (List Nat)
   | [] => some []
   | b0 :: rest =>
     if b0 < 0x80 then (utf8Decode rest).map (b0.toNat :: ·)
+    else if 0xC2 ≤ b0 ∧ b0 ≤ 0xDF then
+      match rest with
+      | b1 :: rest' =>
+        if 0x80 ≤ b1 ∧ b1 ≤ 0xBF then
+          (utf8Decode rest').map (((b0.toNat % 32) * 64 + (b1.toNat % 64)) :: ·)
+        else none
+      | _ => none
     else if 0xE0 ≤ b0 ∧ b0 ≤ 0xEF then
       match rest with
       | b1 :: b2 :: rest' =>
@@ -43,13 +50,26 @@ def utf8Encode1 (cp : Nat) : Bytes :=
   else if cp < 0x800 then [UInt8.ofNat (0xC0 + cp / 64), UInt8.ofNat (0x80 + cp % 64)]
   else [UInt8.ofNat (0xE0 + cp / 4096), UInt8.ofNat (0x80 + (cp / 64) % 64), UInt8.ofNat (0x80 + cp % 64)]
 
+/-- Double-byte rows of the sub-codec: `(first code point, last code point, lead byte, first trail byte)`.
+Greek and Cyrillic are the classes whose UTF-8 and Shift-JIS encodings have the same length. -/
+def table : List (Nat × Nat × Nat × Nat) :=
+  [ (0x3041, 0x3093, 0x82, 0x9F), (0x30A1, 0x30DF, 0x83, 0x40), (0x30E0, 0x30F6, 0x83, 0x80),
+    (0x0391, 0x03A1, 0x83, 0x9F), (0x03A3, 0x03A9, 0x83, 0xB0), (0x03B1, 0x03C1, 0x83, 0xBF),
+    (0x03C3, 0x03C9, 0x83, 0xD0), (0x0410, 0x0415, 0x84, 0x40), (0x0416, 0x042F, 0x84, 0x47),
+    (0x0430, 0x0435, 0x84, 0x70), (0x0436, 0x043D, 0x84, 0x77), (0x043E, 0x044F, 0x84, 0x80) ]
+
 def encCp (cp : Nat) : Option Bytes :=
   if cp < 0x80 then some [UInt8.ofNat cp]
   else if 0xFF61 ≤ cp ∧ cp ≤ 0xFF9F then some [UInt8.ofNat (cp - 0xFF61 + 0xA1)]
-  else if 0x3041 ≤ cp ∧ cp ≤ 0x3093 then some [0x82, UInt8.ofNat (0x9F + (cp - 0x3041))]
-  else if 0x30A1 ≤ cp ∧ cp ≤ 0x30DF then some [0x83, UInt8.ofNat (0x40 + (cp - 0x30A1))]
-  else if 0x30E0 ≤ cp ∧ cp ≤ 0x30F6 then some [0x83, UInt8.ofNat (0x80 + (cp - 0x30E0))]
-  else none
+  else match table.find? (fun r => r.1 ≤ cp && cp ≤ r.2.1) with
+    | some (lo, _, lead, base) => some [UInt8.ofNat lead, UInt8.ofNat (base + (cp - lo))]
+    | none => none
+
+/-- Code point of the double-byte code `lead trail`, if it lies in a row of the table. -/
+def decPair (lead trail : Nat) : Option Nat :=
+  match table.find? (fun r => r.2.2.1 == lead && r.2.2.2 ≤ trail && trail ≤ r.2.2.2 + (r.2.1 - r.1)) with
+  | some (lo, _, _, base) => some (lo + (trail - base))
+  | none => none
 
 def encCps : List Nat → Option Bytes
   | [] => some []
@@ -68,18 +88,12 @@ def dec : Bytes → Str
   | b0 :: rest =>
     if b0 < 0x80 then b0 :: dec rest
     else if 0xA1 ≤ b0 ∧ b0 ≤ 0xDF then utf8Encode1 (0xFF61 + (b0.toNat - 0xA1)) ++ dec rest
-    else if b0 = 0x82 then
+    else if b0 = 0x82 ∨ b0 = 0x83 ∨ b0 = 0x84 then
       match rest with
       | b1 :: rest' =>
-        if 0x9F ≤ b1 ∧ b1 ≤ 0xF1 then utf8Encode1 (0x3041 + (b1.toNat - 0x9F)) ++ dec rest'
-        else replacement ++ dec rest'
-      | [] => replacement
-    else if b0 = 0x83 then
-      match rest with
-      | b1 :: rest' =>
-        if 0x40 ≤ b1 ∧ b1 ≤ 0x7E then utf8Encode1 (0x30A1 + (b1.toNat - 0x40)) ++ dec rest'
-        else if 0x80 ≤ b1 ∧ b1 ≤ 0x96 then utf8Encode1 (0x30E0 + (b1.toNat - 0x80)) ++ dec rest'
-        else replacement ++ dec rest'
+        match decPair b0.toNat b1.toNat with
+        | some cp => utf8Encode1 cp ++ dec rest'
+        | none => replacement ++ dec rest'
       | [] => replacement
     else replacement ++ dec rest
 
